@@ -196,10 +196,17 @@ class Report:
             json.dump(ev, fh, indent=1, default=str)
 
 
+class TimeBudgetExceeded(BaseException):
+    """raised by the wall-clock guard; not an Exception, so that no engine swallows it"""
+
+
 def guarded(fn):
     """Run a check entry point under the exit protocol."""
     try:
         return fn()
+    except TimeBudgetExceeded as e:
+        print(f"ANALYSIS-ERROR {e}")
+        return 2
     except AnalysisError as e:
         print(f"ANALYSIS-ERROR {e}")
         return 2
